@@ -125,6 +125,18 @@ def trace_leg(pid, tier, seed, corpus_name, decls, declfile, modes, budget, prof
         outdir = os.path.join(WORK, "traces", "%s-%s-%s" % (pid, corpus_name, profile))
         n, shards = vlib.record(crate, profile, modes, budget, seed, outdir, shard_bytes=shard_bytes)
         t1 = time.time()
+        import hashlib
+        h = hashlib.sha256()
+        for s in shards:
+            h.update(open(s, "rb").read())
+        if h.hexdigest() in digests.values():
+            # byte-identical to a trace that TLC has already accepted event by event: nothing new to validate
+            st = vlib.trace_stats(shards)
+            st.update({"profile": profile, "shards": len(shards), "build_s": round(tb, 1), "validate_s": 0.0, "tlc_states": 0,
+                       "note": "byte-identical to the validated %s trace" % [k for k, v in digests.items() if v == h.hexdigest()][0]})
+            stats["runs"].append(st)
+            digests[profile] = h.hexdigest()
+            continue
         results = vlib.validate(shards, declfile)
         tv = time.time() - t1
         rej = [r for r in results if r["status"] == "rejected"]
@@ -373,6 +385,19 @@ def gen_random(tier, seed, mode, tag, num_q, num_t, maxfields=6):
     return decls
 
 
+def tall_chunks(pred=None, chunk=500):
+    """T-all: every (lo, hi) of 11 bases (spec/Corpus.tla QTall), split into compile units of <= chunk fields"""
+    _, tall = vlib.corpus("tall")
+    out = []
+    for d in tall:
+        fs = [f for f in d["fields"] if pred is None or pred(d, f)]
+        for k in range(0, len(fs), chunk):
+            dd = dict(d)
+            dd["fields"] = [dict(f, name="f%d" % j) for j, f in enumerate(fs[k:k + chunk])]
+            out.append(dd)
+    return json.loads(json.dumps(out))
+
+
 def copyd(decls):
     return [json.loads(json.dumps(d)) for d in decls]
 
@@ -382,7 +407,7 @@ def c01(pid, tier, seed, t0):
     _, star = vlib.corpus("star")
     _, model = vlib.corpus("model")
     rnd = sub(gen_random(tier, seed, "overlap", "c01", 60, 600), lambda d, f: contiguous(d, f) and f["access"] != "w")
-    decls = copyd(star) + copyd(model) + copyd(rnd)
+    decls = copyd(star) + copyd(model) + copyd(rnd) + (tall_chunks() if tier == "thorough" else [])
     declfile = save_decls("C01", decls)
     legs = [trace_leg(pid, tier, seed, "star+model+rand", decls, declfile, "get,tableget", q(tier, 1, 6), crate="rt-c01")]
     finish(pid, tier, seed, t0, mc, legs,
@@ -397,7 +422,7 @@ def c02(pid, tier, seed, t0):
     _, star = vlib.corpus("star")
     _, model = vlib.corpus("model")
     rnd = sub(gen_random(tier, seed, "overlap", "c02", 60, 600), lambda d, f: contiguous(d, f) and f["access"] != "r")
-    decls = copyd(star) + copyd(model) + copyd(rnd)
+    decls = copyd(star) + copyd(model) + copyd(rnd) + (tall_chunks() if tier == "thorough" else [])
     declfile = save_decls("C02", decls)
     legs = [trace_leg(pid, tier, seed, "star+model+rand", decls, declfile, "write,table", q(tier, 1, 4), crate="rt-c02")]
     PROOFS["C02"] = tlaps_leg(["Frame", "RoundTrip"])
@@ -450,6 +475,8 @@ def c05(pid, tier, seed, t0):
     rnd = gen_random(tier, seed, "overlap", "c05", 200, 2000)
     signed = lambda d, f: f["kind"] == "inat"
     decls = copyd(sub(star, signed)) + copyd(sub(arr, signed)) + copyd(sub(nc, signed)) + copyd(sub(rnd, signed))
+    if tier == "thorough":
+        decls += tall_chunks(signed)
     declfile = save_decls("C05", decls)
     legs = [trace_leg(pid, tier, seed, "signed(star,arr,nc,rand)", decls, declfile, "get,write", q(tier, 3, 10), crate="rt-c05")]
     finish(pid, tier, seed, t0, mc, legs,
@@ -495,6 +522,8 @@ def c11(pid, tier, seed, t0):
     _, model = vlib.corpus("model")
     rnd = gen_random(tier, seed, "overlap", "c11", 300, 3000)
     decls = [d for d in copyd(star) + copyd(arr) + copyd(nc) + copyd(cust) + copyd(model) + copyd(rnd) if arb(d)]
+    if tier == "thorough":
+        decls += [d for d in tall_chunks() if arb(d)]
     if tier == "quick":
         for d in decls:
             if len(d["fields"]) > 40:
@@ -512,7 +541,7 @@ def c11(pid, tier, seed, t0):
     units = [verdicts.decl_unit(d) for d in fam]
     vbuilds = verdicts.batch_build("v-c11", units, "dev")
     for d, u in zip(fam, units):
-        vev.append({"ev": "verdict", "decl": d["id"], "macro_profile": "dev", "accepted": bool(u.compiles),
+        vev.append({"ev": "dverdict", "decl": d["id"], "macro_profile": "dev", "accepted": bool(u.compiles),
                     "in_decl": True if u.compiles else verdicts.in_decl(u),
                     "source": "\n".join(rustgen.decl_source(d)), "diagnostic": (u.diag or {}).get("rendered", "")})
     vstates, known = verdicts.validate_events(pid, "v-c11", vev, vfile, fam,
@@ -595,13 +624,16 @@ def c16(pid, tier, seed, t0):
     _, cust = vlib.corpus("cust")
     rnd = gen_random(tier, seed, "overlap", "c16", 100, 1000)
     decls = copyd(star) + copyd(arr) + copyd(nc) + copyd(rnd)
+    if tier == "thorough":
+        decls += tall_chunks(lambda d, f: f["ranges"][0][1] >= d["n"] - 2 or f["ranges"][0][0] <= 1 or rustgen.width(f) in (1, 7, 8, 9, 31, 32, 33, 63, 64, 65))
     if tier == "quick":
         for d in decls:
             if len(d["fields"]) > 30:
                 top = [f for f in d["fields"] if max(h for _, h in f["ranges"]) + ((f["array"][0] - 1) * (f["stride"][0] if f["stride"] else rustgen.width(f)) if f["array"] else 0) >= d["n"] - 1
                        or rustgen.width(f) >= d["s"] - 1]
                 rest = [f for f in d["fields"] if f not in top]
-                d["fields"] = top + rest[::4]
+                d["fields"] = top[::2] + rest[::16]
+        decls = [d for k, d in enumerate(decls) if k < 45 or k % 3 == 0]
     declfile = save_decls("C16", decls)
     leg = trace_leg(pid, tier, seed, "star+arr+nc+rand", decls, declfile, "get,write", q(tier, 1, 3), profiles=("dev", "release"), crate="rt-c16")
     dg = leg["digests"]
